@@ -14,19 +14,12 @@ from core import rel
 from facts import strip, show, walk, const_val, normalize_cond, atom_of
 
 
-def check(run, prog, tier):
-    run.rule("C11-a", "error_handler: on the uncaught path with current_heart_beat set, set_heart_beat(current_heart_beat,0) and the clearing store precede the jump; current_heart_beat has no other writers; it is set before the heart_beat call", 4)
-    run.rule("C11-b", "destruct_object: set_heart_beat(ob, 0) dominates the store that sets O_DESTRUCTED", 1)
-    run.rule("C11-d", "set_heart_beat removal: num_hb_to_do-- only for an entry inside the running round (index < num_hb_to_do), heart_beat_index-- only for an entry at or before the cursor, both only while a round runs", 2)
-    run.rule("C11-c", "heart_beats[]: every subscript is bounded by num_hb_objs (counting-down loop from the length, or append after the capacity test); the capacity variable is increased before the reallocation", 6)
-
+def fault_locality(run, prog, RULE):
+    """C11-a / C09-d: the failing heart beat, and only it, is switched off on the uncaught path."""
     eh = run.need(prog.func("error_handler"), "error_handler")
     chb = run.need(prog.func("call_heart_beat"), "call_heart_beat")
-    shb = run.need(prog.func("set_heart_beat"), "set_heart_beat")
-    do = run.need(prog.func("destruct_object"), "destruct_object")
-    for f in (eh, chb, shb, do):
-        run.saw(f)
-
+    run.saw(eh)
+    run.saw(chb)
     # ---- C11-a
     ljs = [(b, i, n) for b, i, n in eh.calls() if n.get("fn") in ("longjmp", "_longjmp", "siglongjmp")]
     tests = [bid for bid in eh.reachable() if eh.branch_cond(bid) is not None and strip(eh.branch_cond(bid)).get("n") == "current_heart_beat"]
@@ -58,10 +51,23 @@ def check(run, prog, tier):
             # order: switch off before clearing
             if ok and not any(eh.dominates(o, c) for o in offs for c in clears):
                 ok, why = False, "current_heart_beat is cleared before set_heart_beat uses it"
-    run.ob("C11-a", "switch-off", ok, why, eh.file, eh.line, "error_handler", what="an error in a heart_beat does not switch off that object's heart beat: " + why)
+    run.ob(RULE, "switch-off", ok, why, eh.file, eh.line, "error_handler", what="an error in a heart_beat does not switch off that object's heart beat: " + why)
+    # every other way out of error_handler: only the catch path (a caught error is not a fault of the heart beat) and the
+    # `in_error` exit (a second error while the driver itself dumps the trace of the first) may skip the switch-off
+    after_test = cfgq.reach_set(eh, [tests[0]]) if tests else set()
+    for j, (lb, li, ln) in enumerate(sorted([x for x in ljs if x[0].id not in after_test], key=lambda x: x[2].get("l") or 0)):
+        allowed = None
+        for c, t, B in cfgq.guards(eh, lb.id):
+            op, l, r = atom_of(c, t)
+            if op == "true" and strip(l).get("k") == "Ref" and strip(l).get("n") == "in_error":
+                allowed = "nested error while the driver dumps the first error's trace (`in_error`)"
+            if op == "==" and (facts.any_in_macro(c, "FRAME_CATCH") or "FRAME_CATCH" in show(c)) and "framekind" in show(c):
+                allowed = "catch path (innermost context is a catch frame)"
+        run.ob(RULE, "early-exit:%d" % j, allowed is not None, "longjmp at line %s skips the heart-beat switch-off: %s" % (ln.get("l"), allowed or "not one of the two reviewed exits (catch frame / in_error); its guards are %s" % [show(c)[:40] for c, t, B in cfgq.guards(eh, lb.id)]),
+               eh.file, ln.get("l"), "error_handler", what="error_handler leaves at line %s without switching off the failing heart beat on a path that is neither the catch path nor the in_error exit" % ln.get("l"))
     # catch path must not switch it off (a caught error is not a fault of the heart beat) - the catch longjmp is not reachable from the test
     writers = sorted({f.name for f in prog.functions() for b, i, n in f.nodes() if n.get("k") == "Asg" and strip(n["L"]).get("n") == "current_heart_beat" and strip(n["L"]).get("d") in ("global", "static")})
-    run.ob("C11-a", "writers", set(writers) <= {"call_heart_beat", "error_handler"} and bool(writers), "current_heart_beat written by %s" % writers, chb.file, chb.line, "call_heart_beat",
+    run.ob(RULE, "writers", set(writers) <= {"call_heart_beat", "error_handler"} and bool(writers), "current_heart_beat written by %s" % writers, chb.file, chb.line, "call_heart_beat",
            what="current_heart_beat written outside call_heart_beat/error_handler: %s" % writers)
     calls = [(b, i, n) for b, i, n in chb.calls() if n.get("fn") in ("call_function", "apply", "apply_low", "call_function_pointer")]
     sets = [(b, i, n) for b, i, n in chb.nodes() if n.get("k") == "Asg" and strip(n["L"]).get("n") == "current_heart_beat" and const_val(n["R"]) != 0]
@@ -72,14 +78,31 @@ def check(run, prog, tier):
     if sets and calls:
         pub = show(strip(sets[0][2]["R"]))
         same = any(pub in show(a) for a in calls[0][2].get("args", []))
-    run.ob("C11-a", "publish", okp and same, "current_heart_beat = %s dominates %s" % (show(strip(sets[0][2]["R"])) if sets else "?", show(calls[0][2])[:60]), chb.file, calls[0][2].get("l"), "call_heart_beat",
+    run.ob(RULE, "publish", okp and same, "current_heart_beat = %s dominates %s" % (show(strip(sets[0][2]["R"])) if sets else "?", show(calls[0][2])[:60]), chb.file, calls[0][2].get("l"), "call_heart_beat",
            what="the heart_beat call runs without current_heart_beat naming the called object")
     clr = [(b, i, n) for b, i, n in chb.nodes() if n.get("k") == "Asg" and strip(n["L"]).get("n") == "current_heart_beat" and const_val(n["R"]) == 0]
     # cleared before the other per-tick tasks (reset / call_out) run, so their errors are not blamed on a heart beat
     others = [(b, i, n) for b, i, n in chb.calls() if n.get("fn") in ("look_for_objects_to_swap", "call_out")]
     okc = bool(clr) and all(any(chb.point_dominates((cb.id, ci), (b.id, i)) for cb, ci, cn in clr) for b, i, n in others)
-    run.ob("C11-a", "clear-before-other-tasks", okc, "current_heart_beat = 0 dominates look_for_objects_to_swap()/call_out()" if okc else "reset/call_out run with current_heart_beat possibly still set",
+    run.ob(RULE, "clear-before-other-tasks", okc, "current_heart_beat = 0 dominates look_for_objects_to_swap()/call_out()" if okc else "reset/call_out run with current_heart_beat possibly still set",
            chb.file, chb.line, "call_heart_beat", what="an error in reset()/call_out switches off the last heart beat object's heart beat")
+
+
+
+def check(run, prog, tier):
+    run.rule("C11-a", "error_handler: on the uncaught path with current_heart_beat set, set_heart_beat(current_heart_beat,0) and the clearing store precede the jump; current_heart_beat has no other writers; it is set before the heart_beat call", 4)
+    run.rule("C11-b", "destruct_object: set_heart_beat(ob, 0) dominates the store that sets O_DESTRUCTED", 1)
+    run.rule("C11-d", "set_heart_beat removal: num_hb_to_do-- only for an entry inside the running round (index < num_hb_to_do), heart_beat_index-- only for an entry at or before the cursor, both only while a round runs", 2)
+    run.rule("C11-c", "heart_beats[]: every subscript is bounded by num_hb_objs (counting-down loop from the length, or append after the capacity test); the capacity variable is increased before the reallocation", 6)
+
+    eh = run.need(prog.func("error_handler"), "error_handler")
+    chb = run.need(prog.func("call_heart_beat"), "call_heart_beat")
+    shb = run.need(prog.func("set_heart_beat"), "set_heart_beat")
+    do = run.need(prog.func("destruct_object"), "destruct_object")
+    for f in (eh, chb, shb, do):
+        run.saw(f)
+
+    fault_locality(run, prog, "C11-a")
 
     # ---- C11-d round cursors on removal
     for var, cmpop, other in (("num_hb_to_do", "<", "num_hb_to_do"), ("heart_beat_index", "<=", "heart_beat_index")):
